@@ -69,7 +69,7 @@ def gen_script(rng, max_ops, profile):
         chk = [p for p in js.get('check', []) if p in pals]
         if not reqs:
             continue
-        lines.append('mkjob 1 %s%s' % (' '.join('%d:%d' % r for r in reqs), (' c ' + ' '.join(map(str, chk))) if chk else ''))
+        lines.append('mkjob %d %s%s' % (3 if js.get('xodd') else 1, ' '.join('%d:%d' % r for r in reqs), (' c ' + ' '.join(map(str, chk))) if chk else ''))
         njobs += 1
     depth = 0
     armed = False
